@@ -2,8 +2,9 @@
 """seed_eval.py [seed ids...]: apply each /verif/seeded/<id>/patch.diff to /repo, run the quick check of its
 property (or --props P1,P2), undo, and record the outcome in /verif/seeded/RESULTS.json."""
 import json, os, subprocess, sys, time
-VERIF = '/verif'
-def sh(cmd, **kw): return subprocess.run(cmd, shell=True, capture_output=True, text=True, **kw)
+REPO = os.environ.get('VP_RUN_REPO') or os.environ.get('SEED_REPO') or '/repo'
+VERIF = os.getcwd() if os.environ.get('VP_RUN_REPO') else '/verif'
+def sh(cmd, **kw): return subprocess.run(cmd, shell=True, capture_output=True, text=True, env=dict(os.environ, VERIF_REPO=REPO), **kw)
 def main():
     args = [a for a in sys.argv[1:] if not a.startswith('--')]
     props_override = next((a.split('=')[1].split(',') for a in sys.argv[1:] if a.startswith('--props=')), None)
@@ -11,12 +12,12 @@ def main():
     ids = args or sorted(d for d in os.listdir(f'{VERIF}/seeded') if os.path.isdir(f'{VERIF}/seeded/{d}'))
     respath = f'{VERIF}/seeded/RESULTS.json'
     results = json.load(open(respath)) if os.path.exists(respath) else {}
-    assert sh('git -C /repo status --porcelain').stdout.strip() == '', '/repo not clean'
+    assert sh(f'git -C {REPO} status --porcelain').stdout.strip() == '', 'repo not clean'
     for sid in ids:
         d = f'{VERIF}/seeded/{sid}'
         meta = json.load(open(f'{d}/meta.json'))
         props = props_override or [meta['property']]
-        r = sh(f'git -C /repo apply {d}/patch.diff')
+        r = sh(f'git -C {REPO} apply {d}/patch.diff')
         if r.returncode:
             print(sid, 'patch does not apply:', r.stderr[:200]); continue
         try:
@@ -27,9 +28,9 @@ def main():
                 fps = [l.strip() for l in c.stdout.splitlines() if l.strip().startswith('fingerprint:')]
                 results.setdefault(sid, {})[p] = {'exit': c.returncode, 'wall_s': round(time.time() - t, 1), 'tier': tier,
                                                 'caught': c.returncode == 1, 'first_lines': lines[:3], 'fingerprints': fps[:4]}
-                print(sid, p, 'exit', c.returncode, f'{time.time()-t:.0f}s', (fps or lines or [c.stdout[-300:]])[:2])
+                print(sid, p, 'exit', c.returncode, flush=True) if False else print(sid, p, 'exit', c.returncode, f'{time.time()-t:.0f}s', (fps or lines or [c.stdout[-300:]])[:2], flush=True)
         finally:
-            sh('git -C /repo checkout -- .')
+            sh(f'git -C {REPO} checkout -- .')
         json.dump(results, open(respath, 'w'), indent=1)
     # leave replays produced by mutants out of the tree
     sh(f'rm -f {VERIF}/replays/*.json')
